@@ -376,6 +376,47 @@ Theorem copy_is_independent : forall (F G H : fset) conv sl (d d1 d2 : disk) es 
     (write_file H x q d1 = Good d2 -> dlook (e_path en) d2 = Some b).
 Proof. exact (copy_independent_thm Data Bytes enc dec pack unpack). Qed.
 
+(* ---- reading touches nothing.  `reads o`: o is read(), fileset[t], collect / icollect / fileset[s:e], find or a dry run.
+   An operation that only reads hands back the WHOLE disk as it was -- equality of disks, not only of the paths it names:
+   no file is gone, none is new (nothing is left behind in a temporary directory), no content has changed (a file that
+   happens to be called like the decompressed copy of a selected file keeps its bytes). *)
+Notation reads := (reads Data).
+Theorem reading_keeps_disk : forall (o : op Data) (d d' : disk) ob,
+  reads o = true -> step o d = Good (d', ob) -> d' = d.
+Proof. exact (reading_keeps_disk_thm Data Bytes enc dec pack unpack). Qed.
+
+(* lifted to histories: after ANY sequence of reading operations the disk is the one the history started from *)
+Theorem read_history_keeps_disk : forall (ops : list (op Data)) (d d' : disk),
+  forallb reads ops = true -> run ops d = Good d' -> d' = d.
+Proof. exact (read_history_keeps_disk_thm Data Bytes enc dec pack unpack). Qed.
+
+(* collect / icollect / fileset[s:e] read several files "at once": every element of the result is what read() of that
+   file ALONE returns -- on the disk as it is and on every disk d2 with the same content under that ONE path, whatever the
+   other selected files are called (the same base name in other sub directories) and whatever else the tree holds (the
+   temporary directory included); and the disk is unchanged *)
+Theorem collect_reads_each_file_alone : forall (F : fset) sl (d d' : disk) l,
+  step (OCollect F sl) d = Good (d', VList l) ->
+  d' = d /\ exists es, find F sl d = Good es /\
+  Forall2 (fun en py => fst py = e_path en /\
+                        forall d2 : disk, dlook (e_path en) d2 = dlook (e_path en) d ->
+                                          step (ORead F en) d2 = Good (d2, VData (snd py))) es l.
+Proof. exact (collect_reads_each_file_alone_thm Data Bytes enc dec pack unpack). Qed.
+
+(* ---- overwriting.  A file written over an existing one -- by the same fileset or another, with any handler, write
+   arguments and compression -- leaves exactly the disk that the LAST write alone produces from the disk before the first:
+   nothing of the earlier content survives (a handler that appends to what is there is not a refinement) *)
+Theorem overwrite_forgets : forall (F G : fset) x y p (d d1 d2 : disk),
+  write_file F x p d = Good d1 -> write_file G y p d1 = Good d2 -> write_file G y p d = Good d2.
+Proof. exact (overwrite_forgets_thm Data Bytes enc pack). Qed.
+
+(* ... and what is read back afterwards is the object written LAST; no other path has changed *)
+Theorem overwrite_reads_last : forall (F G : fset) x y en (d d1 d2 : disk),
+  codec_ok -> rargs G = wargs G -> zc G = zd G ->
+  write_file F x (e_path en) d = Good d1 -> write_file G y (e_path en) d1 = Good d2 ->
+  read_file G en d2 = Good (post G en y) /\ write_file G y (e_path en) d = Good d2 /\
+  (forall r, r <> e_path en -> dlook r d2 = dlook r d).
+Proof. exact (overwrite_reads_last_thm Data Bytes enc dec pack unpack). Qed.
+
 (* ---- arguments of a single call.  `kcode` = what a keyword dictionary means to the handler. *)
 Variable kcode : kwargs -> Z.
 Notation fobj := (@fobj Data).
@@ -594,6 +635,39 @@ Proof.
   repeat split; vm_compute; reflexivity.
 Qed.
 
+(* non-vacuity of the reading laws, on the instance the harness runs: a gzipped pickle fileset whose template gives the
+   SAME base name (data.pkl.gz) to the files of three days, a bystander R/tmp/data.pkl (the name a decompressed copy would
+   have) in the directory the fileset uses for its temporary files.  collect returns each file's own payload and the disk as
+   it was; the same value comes from reading the file alone on a disk WITHOUT the other files; the history find / collect /
+   fileset[t] / read / dry run is a reading history and ends on the same disk; then the file of 2018-02-27 is overwritten
+   (payload 77) and read back: 77, the tree is the one a single write of 77 produces. *)
+Example nonvacuous_reading_and_overwriting :
+  let F : t_fset := FSet [Lit (s2l "R/d0/"); T false FYear; Lit (s2l "/"); T false FMonth; Lit (s2l "/"); T false FDay;
+                          Lit (s2l "/data.pkl.gz")] None 1 0 0 (fun _ x => x) true true in
+  let B : t_fset := FSet [Lit (s2l "R/tmp/data.pkl")] None 1 0 0 (fun _ x => x) true true in
+  let d := [("R/d0/2018/02/26/data.pkl.gz"%string, [11; 1; 101]); ("R/d0/2018/02/27/data.pkl.gz"%string, [11; 1; 102]);
+            ("R/d0/2018/02/28/data.pkl.gz"%string, [11; 1; 103]); ("R/tmp/data.pkl"%string, [1; 150])] in
+  let all := Sel 0 315537897599999999 [] [] None in
+  let p := s2l "R/d0/2018/02/27/data.pkl.gz" in
+  let hist := [OFind F all; OCollect F all; OGet F 63655286400000000; ORead F (t_info F p);
+               ORead B (bare (s2l "R/tmp/data.pkl")); ODelete F true all] in
+  run_step (OCollect F all) d =
+    TGood d (TList [("R/d0/2018/02/26/data.pkl.gz"%string, 101); ("R/d0/2018/02/27/data.pkl.gz"%string, 102);
+                    ("R/d0/2018/02/28/data.pkl.gz"%string, 103)]) /\
+  run_step (ORead F (t_info F p)) [("R/d0/2018/02/27/data.pkl.gz"%string, [11; 1; 102])] =
+    TGood [("R/d0/2018/02/27/data.pkl.gz"%string, [11; 1; 102])] (TData 102) /\
+  forallb (reads Z) hist = true /\
+  run Z (list Z) t_enc t_dec t_pack t_unpack hist (in_disk d) = Good (in_disk d) /\
+  run_step (OWriteAt F p 77) d =
+    TGood [("R/d0/2018/02/27/data.pkl.gz"%string, [11; 1; 77]); ("R/d0/2018/02/26/data.pkl.gz"%string, [11; 1; 101]);
+           ("R/d0/2018/02/28/data.pkl.gz"%string, [11; 1; 103]); ("R/tmp/data.pkl"%string, [1; 150])] TNone /\
+  run_step (OWriteAt F p 77) (("R/d0/2018/02/26/data.pkl.gz"%string, [11; 1; 101]) ::
+                              ("R/d0/2018/02/28/data.pkl.gz"%string, [11; 1; 103]) :: [("R/tmp/data.pkl"%string, [1; 150])]) =
+    run_step (OWriteAt F p 77) d /\
+  run_step (ORead F (t_info F p)) [("R/d0/2018/02/27/data.pkl.gz"%string, [11; 1; 77])] =
+    TGood [("R/d0/2018/02/27/data.pkl.gz"%string, [11; 1; 77])] (TData 77).
+Proof. cbv zeta. repeat split; vm_compute; reflexivity. Qed.
+
 Print Assumptions move_conserves.
 Print Assumptions move_conserves_period.
 Print Assumptions move_succeeds.
@@ -622,6 +696,11 @@ Print Assumptions collect_applies_post_reader_to_own_entries.
 Print Assumptions convert_applies_post_reader_to_own_entry.
 Print Assumptions decompression_is_transparent.
 Print Assumptions copy_is_independent.
+Print Assumptions reading_keeps_disk.
+Print Assumptions read_history_keeps_disk.
+Print Assumptions collect_reads_each_file_alone.
+Print Assumptions overwrite_forgets.
+Print Assumptions overwrite_reads_last.
 Print Assumptions read_with_args.
 Print Assumptions write_with_args.
 Print Assumptions calls_keep_object.
